@@ -101,29 +101,29 @@ package meta
 //@ ghost pred candNotRemoved() bool
 
 //@ callrule c07_candidate_type in objectLocked*
-//@   property C07
+//@   property C07, C01
 //@   callee metabase.isObjectType
 //@   pureeffect
 //@   defines (result && a2 == object.TypeLock) ==> candIsLock()
 //@ callrule c07_candidate_expiry in objectLocked*
-//@   property C07
+//@   property C07, C01
 //@   callee metabase.isExpired
 //@   pureeffect
 //@   defines !result ==> candUnexpired()
 //@ callrule c07_candidate_removed in objectLocked*
-//@   property C07
+//@   property C07, C01
 //@   callee metabase.inGarbage
 //@   pureeffect
 //@   defines result == statusAvailable ==> candNotRemoved()
 //@ callrule c07_lock_search_collaborators in objectLocked*
-//@   property C07
+//@   property C07, C01
 //@   callee (*bbolt.Cursor).*, (*bbolt.Bucket).*
 //@   pureeffect
 
 // objectLocked$1 is the body of the range-over-func loop over the candidates: it returns false
 // (stop the iteration) only for a candidate that is a live, present lock.
 //@ func objectLocked$1
-//@   property C07
+//@   property C07, C01
 //@   ensures [search_stops_only_at_a_live_present_lock] !result ==> candIsLock() && (currEpoch == 0 || candUnexpired()) && candNotRemoved()
 
 // A tombstone writes a garbage mark (for the target or any of its children) only on a path
